@@ -83,9 +83,9 @@ PROPS = {
     "C03": [("C03.v", r".")],
     "C04": [("C04dense.v", r"."), ("C04pag.v", r"."), ("C04pagloops.v", r"."), ("C04sparse.v", r"."), ("LayerA.v", r"^A[1-7]_"), ("Refine.v", r"^Rf_st_|^Rf_StInv")],
     "C05": [("C05.v", r"."), ("LayerA.v", r"^A8_")],
-    "C06": [("Wire.v", r"^C06_"), ("WireRaw.v", r"concat")],
-    "C07": [("Wire.v", r"^C07_"), ("WireRaw.v", r".")],
-    "C08": [("Wire.v", r"^C08_"), ("C18.v", r"prefix_eof|reads_at_most_9"), ("C19.v", r"truncated|short_input|unknown_mapping")],
+    "C06": [("Wire.v", r"^C06_"), ("WireRaw.v", r"concat"), ("WireAny.v", r"^C06_")],
+    "C07": [("Wire.v", r"^C07_"), ("WireRaw.v", r"."), ("WireAny.v", r"^C07_")],
+    "C08": [("Wire.v", r"^C08_"), ("WireAny.v", r"^C08_"), ("C18.v", r"prefix_eof|reads_at_most_9"), ("C19.v", r"truncated|short_input|unknown_mapping")],
     "C09": [("Proto.v", r".")],
     "C10": [("C10.v", r".")],
     "C11": [("Rank.v", r"^C11_"), ("Instance.v", r"^I_C11_")],
